@@ -303,8 +303,11 @@ class Function(Value):
         )
 
     def to_model(self) -> model.Term:
-        module = self.body.to_model()
-        return model.Func(module.root)
+        from hugr.model.export import ModelExport
+
+        export = ModelExport(self.body)
+        region = export.export_region_dfg(self.body.root)
+        return model.Func(region)
 
 
 @dataclass
